@@ -21,7 +21,8 @@ RULE = ("policy (L1, family 2): histories of SEVERAL accepted messages (policy -
         "userhist (L1, family 1): adversarial permissionless clp/margin/bank/dispensation/ethbridge messages (amounts 0, 1, 2^64+-1, 2^128, "
         "dust, near pool depths) under policies inside the envelope, all hooks under recover() after every block; every third history in a DEEP "
         "world (users hold 2^135 of each denom; pools created with native depth 10^18 or 2^64..2^128+1 and external depth 1, 2, 10^18 or 2^64..2^128+1; "
-        "deposits, swaps and rewards-bucket top-ups from the same set, plus 2^255 / 2^256-1 that only the bank refuses); directed: F16, and the "
+        "deposits, swaps and rewards-bucket top-ups from the same set, plus 2^255 / 2^256-1 that only the bank refuses); every tenth history is a pool with 3-9 providers of EQUAL units plus 1-2 dust providers (either address order), a bucket m*10^18, pool or wallet mode, "
+        "the epoch ending with everyone eligible; directed: F16, the demonstration of seeded change C10-10 (six equal providers + dust, both modes), and the "
         "demonstration of seeded change C10-6 (pool 2^128 rowan, bucket 2^128 / 2^128-1 / 3*2^128 ceth, default rewards parameters, height jumped "
         "past the 14-day lock period, epoch ends). "
         "confine (L2, family 1): signed transactions through the full app; a panicking user message vs a plainly failing one on twin "
